@@ -297,6 +297,9 @@ def run_model(domain, text, timeout=600, driver='cl'):
     return parse_traces(out)[0]
 
 
+HANG_SECONDS = [0.0]     # time this process has spent waiting for cases that never returned
+
+
 def run_impl(binary, case_texts, ids, timeout=600):
     """runs all cases in one process; on a crash the crashing case is marked and the rest
     is re-run in a new process.  returns {id: lines}; a crashed case ends with 'CRASH <why>'"""
@@ -308,7 +311,9 @@ def run_impl(binary, case_texts, ids, timeout=600):
         text = ''.join(case_texts[i] for i in pending)
         # a batch of thousands of cases takes seconds; a case that never returns (deadlock, endless loop) is
         # recognised by the batch running out of time: what was printed before tells which case it was
-        tmo = min(timeout, 45 + 0.05 * len(pending))
+        # (single cases — the shrinkers' re-runs — get seconds, fewer still once hangs have cost minutes)
+        base = 45 if len(pending) > 3 else (8 if HANG_SECONDS[0] < 150 else 3)
+        tmo = min(timeout, base + 0.05 * len(pending))
         try:
             rc, out, err = sh([binary], input=text, timeout=tmo, env=SAN_ENV)
         except subprocess.TimeoutExpired as te:
@@ -322,6 +327,7 @@ def run_impl(binary, case_texts, ids, timeout=600):
             bad = next((c for c in pending if c not in pdone), None)
             if bad is None:
                 break
+            HANG_SECONDS[0] += tmo
             res[bad] = pcases.get(bad, []) + ['HANG the call did not return within %d s' % int(tmo)]
             pending = pending[pending.index(bad) + 1:]
             hangs = sum(1 for v in res.values() if v and v[-1].startswith('HANG'))
